@@ -14,7 +14,7 @@ def LineOfFile (path : String) (src : List Char) (l : Line) : Prop :=
 
 /-- `l` is a correctly numbered line of some (ASCII) file of the filesystem -/
 def FromFS (fs : FS) (l : Line) : Prop :=
-  ∃ p bs src, fs.readAt p = some bs ∧ bytesToAscii bs = some src ∧ LineOfFile p src l
+  ∃ p bs src, fs.readAt p = some bs ∧ bytesToText bs = some src ∧ LineOfFile p src l
 
 /-- result of a reader: all lines produced, and the line of an AssemblerError, satisfy `Q` -/
 def ReadOK (r : Except Err (List Line)) (Q : Line → Prop) : Prop :=
